@@ -90,7 +90,53 @@ def num_eq(a, b):
                   z3.Or(a.rank != 0, a.val == b.val))
 
 
+class ValTheory:
+    """Well-formedness facts for every Val term that occurs in a query (also derived ones such
+    as item(v, i)): lengths are non-negative, the tag is one of the known tags."""
+
+    DEPTH = 2
+
+    def reset(self, it):
+        it._val_done = set()
+        it._val_keep = []
+
+    def snapshot(self, it):
+        return set(it._val_done)
+
+    def restore(self, it, snap):
+        it._val_done = snap
+
+    def saturate(self, it, formulas):
+        from pyvc.rec import _has_var
+        added = []
+        stack = [f[0] if isinstance(f, tuple) else f for f in formulas]
+        seen = set()
+        while stack:
+            e = stack.pop()
+            i = e.get_id()
+            if i in seen:
+                continue
+            seen.add(i)
+            if z3.is_quantifier(e):
+                stack.append(e.body())
+                continue
+            if not z3.is_app(e):
+                continue
+            nm = e.decl().name()
+            if nm in ("v_len", "as_slen", "tag") and not _has_var(e):
+                key = (nm, e.arg(0).get_id())
+                if key not in it._val_done:
+                    it._val_done.add(key)
+                    it._val_keep.append(e)
+                    f = (e >= 0) if nm != "tag" else z3.And(e >= 0, e <= 12)
+                    it.S.add(f)
+            stack.extend(e.children())
+        return added
+
+
 def install(w):
+    w.theories.append(ValTheory())
+
     def use(s):
         w.trusted_used.add(s)
 
@@ -139,6 +185,9 @@ def install(w):
             it.sadd(z3.And(sym.tag(t) == T["list"], sym.v_len(t) == it.st.lists[v.oid].len))
         elif isinstance(v, VTuple):
             it.sadd(z3.And(sym.tag(t) == T["tuple"], sym.v_len(t) == len(v.items)))
+            for k, x in enumerate(v.items):
+                if isinstance(x, VDyn):
+                    it.sadd(sym.v_item(t, k) == x.t)
         elif isinstance(v, VDict):
             it.sadd(sym.tag(t) == T["dict"])
         else:
@@ -443,6 +492,102 @@ def install(w):
         return prev_getattr(it, v, attr, node)
     w.getattr_ext = getattr_ext
 
+    # ------------------------------------------------------------------ sized / indexable values
+    SIZED = ("list", "tuple", "str", "dict", "set", "bytes")
+
+    prev_len = w.len_ext
+
+    def len_ext(it, v, node):
+        if isinstance(v, VDyn):
+            use("len(x): TypeError unless x is a list/tuple/str/dict/set, else its length")
+            it.guard(sor(*[sym.tag(v.t) == T[k] for k in SIZED]), TypeError, node, "SAFE-Type")
+            return VInt(z3.If(sym.tag(v.t) == T["str"], sym.as_slen(v.t), sym.v_len(v.t)))
+        return prev_len(it, v, node)
+    w.len_ext = len_ext
+
+    prev_index = w.index_ext
+
+    def dyn_as_int(it, k, node):
+        if isinstance(k, (VInt, VBool)):
+            return it.as_int(k, node)
+        if isinstance(k, VDyn):
+            it.guard(z3.Or(sym.tag(k.t) == T["int"], sym.tag(k.t) == T["bool"]), TypeError, node,
+                     "SAFE-Type")
+            return z3.If(sym.tag(k.t) == T["bool"], z3.If(sym.as_bool(k.t), 1, 0), sym.as_int(k.t))
+        raise Unsupported(f"integer expected, got {k!r}")
+    w.dyn_as_int = dyn_as_int
+
+    def index_ext(it, v, idx, node):
+        if isinstance(v, VDyn):
+            use("x[i] on a tuple/list value: IndexError outside -len..len-1")
+            it.guard(z3.Or(sym.tag(v.t) == T["tuple"], sym.tag(v.t) == T["list"]), TypeError, node,
+                     "SAFE-Type")
+            i = dyn_as_int(it, idx, node)
+            n = sym.v_len(v.t)
+            it.guard(z3.And(-n <= i, i < n), IndexError, node, "SAFE-Index")
+            return VDyn(sym.v_item(v.t, z3.If(i < 0, i + n, i)))
+        return prev_index(it, v, idx, node)
+    w.index_ext = index_ext
+
+    prev_list = w.list_ext
+
+    def list_ext(it, v, node):
+        if isinstance(v, VDyn):
+            from pyvc.interp import ListObj
+            it.guard(sor(*[sym.tag(v.t) == T[k] for k in ("list", "tuple", "set")]), TypeError,
+                     node, "SAFE-Type")
+            j = z3.Int(it.namer.fresh("j"))
+            oid = it.fresh_oid()
+            it.st.lists[oid] = ListObj(sym.v_len(v.t), None, "dyn",
+                                       [z3.Lambda([j], sym.v_item(v.t, j))])
+            return VList(oid)
+        return prev_list(it, v, node)
+    w.list_ext = list_ext
+
+    prev_tuple = w.tuple_ext
+
+    def tuple_ext(it, v, node):
+        if isinstance(v, VList):
+            L = it.st.lists[v.oid]
+            d = it.fresh_dyn("tuple")
+            it.sadd(z3.And(sym.tag(d.t) == T["tuple"], sym.v_len(d.t) == L.len))
+            if L.arrays is not None and L.spec == "dyn":
+                j = z3.Int(it.namer.fresh("j"))
+                it.sadd(z3.ForAll([j], sym.v_item(d.t, j) == z3.Select(L.arrays[0], j),
+                                  patterns=[sym.v_item(d.t, j)]))
+            return d
+        if isinstance(v, VDyn):
+            return v
+        return prev_tuple(it, v, node)
+    w.tuple_ext = tuple_ext
+
+    # attributes of arbitrary objects: a function of (object, attribute name); objects that
+    # passed an isinstance test of a library class are assumed to have that class's attributes
+    ATTR = z3.Function("attr_of", sym.ValS, sym.I, sym.ValS)
+    ATTR_DYN = z3.Function("attr_dyn", sym.ValS, sym.ValS, sym.ValS)
+    STR_ATTRS = {"kind"}
+
+    prev_getattr2 = w.getattr_ext
+
+    def getattr_ext2(it, v, attr, node):
+        if isinstance(v, VDyn):
+            use("attribute read on a user supplied object: a function of (object, name), total")
+            r = ATTR(v.t, sym.ATOMS.code("attr:" + attr))
+            if attr in STR_ATTRS:
+                it.sadd(z3.And(sym.tag(r) == T["str"], sym.as_slen(r) >= 0))
+                return VStr(arr=sym.as_sarr(r), lo=z3.IntVal(0), hi=sym.as_slen(r))
+            return VDyn(r)
+        return prev_getattr2(it, v, attr, node)
+    w.getattr_ext = getattr_ext2
+
+    def getattr_dyn(it, obj, name, default, node):
+        """getattr(obj, <symbolic name>, default): any value (a function of object and name)."""
+        if isinstance(obj, VDyn):
+            nm = name if isinstance(name, VDyn) else w.to_dyn(it, name)
+            return VDyn(ATTR_DYN(obj.t, nm.t))
+        return None
+    w.getattr_dyn = getattr_dyn
+
     # ------------------------------------------------------------------ calling a dynamic value
     prev_call = w.call_ext
 
@@ -454,7 +599,19 @@ def install(w):
                          text=f"call of a non-callable: {_src(node)}")
             if it.choose(2, "dyn call outcome") == 1:
                 raise_any(it, node)
-            return it.fresh_dyn("ret")
+            r = it.fresh_dyn("ret")
+            c = it.contract
+            if c is not None and c.dyn_call_ghost and not it.st.spec:
+                gname, pred = c.dyn_call_ghost
+                cur = it.ghost_get(gname)
+                saved = it.st.spec
+                it.st.spec = True
+                try:
+                    hit = it.truth(w.spec_funcs[pred](it, r))
+                finally:
+                    it.st.spec = saved
+                it.st.ghost[gname] = VInt(cur.t + z3.If(hit, 1, 0))
+            return r
         return prev_call(it, f, args, kwargs, node)
     w.call_ext = call_ext
 
@@ -462,6 +619,10 @@ def install(w):
     prev_binop = w.binop_ext
 
     def binop_ext(it, op, a, b, node):
+        if (isinstance(a, VDyn) or isinstance(b, VDyn)) and isinstance(op, (ast.Add, ast.Sub)) \
+                and isinstance(a, (VDyn, VInt)) and isinstance(b, (VDyn, VInt)):
+            x, y = w.dyn_as_int(it, a, node), w.dyn_as_int(it, b, node)
+            return VInt(x + y if isinstance(op, ast.Add) else x - y)
         if isinstance(op, ast.Pow) and isinstance(a, VInt) and isinstance(b, VInt):
             x, y = z3.simplify(a.t), z3.simplify(b.t)
             if z3.is_int_value(x) and z3.is_int_value(y) and y.as_long() >= 0:
@@ -503,6 +664,8 @@ def install(w):
         "num_eq": p(lambda it, a, b: num_eq(numeric(it, a), numeric(it, b))),
         "same": p(lambda it, a, b: same_val(it, a, b)),
         "truthy": lambda it, v: VBool(it.truth(v)),
+        "is_tuple": p(lambda it, v: sym.tag(as_dyn_t(it, v)) == T["tuple"]),
+        "is_sized": p(lambda it, v: sor(*[sym.tag(as_dyn_t(it, v)) == T[k] for k in ("tuple", "list")])),
         "instance_of": p(lambda it, v, name: z3.And(
             sym.tag(as_dyn_t(it, v)) == T["other"],
             ISINST(as_dyn_t(it, v), sym.ATOMS.code(w.resolve_class(name.lit))))),
